@@ -54,6 +54,35 @@ func rtypeMethod(in *Interp, rt rtype, name string) value {
 		})
 	case "Kind":
 		return hostFn(func(fr *frame, args []value) value { return uint(rtypeKind(rt.t)) })
+	case "NumMethod":
+		return hostFn(func(fr *frame, args []value) value { return numMethods(rt.t) })
+	case "PkgPath":
+		return hostFn(func(fr *frame, args []value) value {
+			if n, ok := rt.t.(*types.Named); ok && n.Obj().Pkg() != nil {
+				return n.Obj().Pkg().Path()
+			}
+			return ""
+		})
+	case "Key":
+		return hostFn(func(fr *frame, args []value) value {
+			if m, ok := rt.t.Underlying().(*types.Map); ok {
+				return mkRtype(m.Key())
+			}
+			in.rtPanic("reflect: Key of non-map type " + typeStr(rt.t))
+			return nil
+		})
+	case "Implements":
+		return hostFn(func(fr *frame, args []value) value {
+			u, ok := rtypeOf(args[0])
+			if !ok {
+				in.rtPanic("reflect: nil type passed to Type.Implements")
+			}
+			it, isI := u.Underlying().(*types.Interface)
+			if !isI {
+				in.rtPanic("reflect: non-interface type passed to Type.Implements")
+			}
+			return types.Implements(rt.t, it)
+		})
 	}
 	return hostFn(func(fr *frame, args []value) value {
 		in.abort("unsupported", "reflect type method %s", name)
